@@ -76,7 +76,7 @@ def special_index_history(rng, res, kind):
     try:
         if not db.open().startswith("ok"):
             return [("open", "database does not start")]
-        db.cmd("mktable sp a:i:%s,b:i:n" % kind)
+        db.cmd("mktable sp a:i:%s,b:i:n,c:s:n" % kind)
         live, used = set(), []
         nkeys = 45 if kind == "h" else 200
         def check(what):
@@ -107,11 +107,27 @@ def special_index_history(rng, res, kind):
                     k = rng.randrange(nkeys)
                     if k in live:
                         continue
-                    db.sql("INSERT INTO sp(a,b) VALUES (%d, %d);" % (k, step))
+                    db.sql("INSERT INTO sp(a,b,c) VALUES (%d, %d, '%s');" % (k, step, "v" * rng.randrange(1, 40)))
                     live.add(k); used.append(k) if k not in used else None
                 desc.append("inserts")
+            elif r < 0.52 and live and kind == "u":
+                # updates through the unique skip list: relocating ones that keep the key (the string shrinks or grows), and
+                # key-changing ones to a key no row holds (the hash index has no UpdateEntry: F-HASH-UPDATE)
+                for k in rng.sample(sorted(live), min(len(live), rng.randrange(2, 10))):
+                    if rng.random() < 0.6:
+                        r2 = db.sql("UPDATE sp SET c = '%s' WHERE b >= 0 AND a = %d;" % ("w" * rng.randrange(1, 60), k))
+                    else:
+                        nk = rng.randrange(nkeys)
+                        if nk in live:
+                            continue
+                        r2 = db.sql("UPDATE sp SET a = %d WHERE b >= 0 AND a = %d;" % (nk, k))
+                        live.discard(k); live.add(nk); used.append(nk) if nk not in used else None
+                    if not r2.startswith("ok"):
+                        fails.append(("# session:\n" + "\n".join(db.log[-80:]), "UPDATE failed: " + r2)); break
+                desc.append("updates")
             elif r < 0.65 and live:
-                for k in rng.sample(sorted(live), min(len(live), rng.randrange(4, 20))):
+                everything = rng.random() < 0.25          # now and then every row goes: an empty table at the next restart
+                for k in (sorted(live) if everything else rng.sample(sorted(live), min(len(live), rng.randrange(4, 20)))):
                     # (a point predicate on a hash-indexed column is planned as an index RANGE scan, which the hash index
                     #  does not implement: the OR form goes through the sequential scan)
                     r2 = db.sql(("DELETE FROM sp WHERE a = %d OR a = %d;" % (k, k)) if kind == "h" else ("DELETE FROM sp WHERE b >= 0 AND a = %d;" % k))
